@@ -91,6 +91,17 @@ CLAIMED = {
         technique="symbolic execution of the real verb/Cache/compile functions on bounded-width tables with symbolic names + z3 (inductive step, data-identity tokens)",
         note="trusted: pdtv + z3; LazyFrame / SQL structural models; A-uuid; bound: table width <= 3 (joins: 2+2)",
     ),
+    "C06": dict(
+        category="other",
+        text="Inductive-step verification conditions with TWO pre-state tables (bounded width, symbolic and possibly colliding names, visible and hidden columns): the real join verb "
+        "(suffix search, rename of right columns), Cache.update and the real Polars / SQL compile_ast are executed symbolically for inner/left/full joins, swapped equalities, user "
+        "suffix, cross join and inequality predicates; z3 discharges the names rule (left names unchanged, right names kept or suffixed, pairwise distinct, no column lost), the "
+        "Cache invariant, the coupling with both backend states and the shape of the emitted join (kind, keys from the proper side, coalesce=False, SQL outer/full flags). "
+        "Row semantics of the engine joins are library axioms. Bounded in table width.",
+        design_ref="DESIGN.md §5.6",
+        technique="symbolic execution of the real join verb/Cache/compile functions on bounded-width tables with symbolic names + z3 string theory (inductive step)",
+        note="trusted: pdtv + z3 (strings); LazyFrame / SQL structural models; A-uuid; bound: widths 1-2 per side",
+    ),
 }
 
 NOT_YET = "check not built yet (engine under construction); will be claimed as soon as its obligations discharge"
